@@ -515,16 +515,6 @@ integer_quotient(T x, Quantity<U, R> q) {
     return make_quantity<UnitInverseT<U>>(x / q.in(U{}));
 }
 
-// The modulo operator (i.e., the remainder of an integer division).
-//
-// Only defined whenever (R1{} % R2{}) is defined (i.e., for integral Reps), _and_
-// `CommonUnitT<U1, U2>` is also defined.  We convert to that common unit to perform the operation.
-template <typename U1, typename R1, typename U2, typename R2>
-constexpr auto operator%(Quantity<U1, R1> q1, Quantity<U2, R2> q2) {
-    using U = CommonUnitT<U1, U2>;
-    return make_quantity<U>(q1.in(U{}) % q2.in(U{}));
-}
-
 // Callsite-readable way to convert a `Quantity` to a raw number.
 //
 // Only works for dimensionless `Quantities`; will return a compile-time error otherwise.
@@ -735,6 +725,18 @@ constexpr auto using_common_type(T t, U u, Func f) {
     return f(cast_to_common_type<C>(t), cast_to_common_type<C>(u));
 }
 }  // namespace detail
+
+// The modulo operator (i.e., the remainder of an integer division).
+//
+// Only defined whenever (R1{} % R2{}) is defined (i.e., for integral Reps), _and_
+// `CommonUnitT<U1, U2>` is also defined.  We convert to that common unit to perform the operation.
+template <typename U1, typename R1, typename U2, typename R2>
+constexpr auto operator%(Quantity<U1, R1> q1, Quantity<U2, R2> q2) {
+    // Convert both inputs to their common type (common unit _and_ common rep) first, as the other
+    // mixed-type operators do: converting each in its own rep can overflow the narrower one.
+    using C = std::common_type_t<Quantity<U1, R1>, Quantity<U2, R2>>;
+    return detail::cast_to_common_type<C>(q1) % detail::cast_to_common_type<C>(q2);
+}
 
 // Comparison functions for compatible Quantity types.
 template <typename U1, typename U2, typename R1, typename R2>
